@@ -124,6 +124,19 @@ func cutsFor(r *common.Rand, n int) string {
 		return fmt.Sprintf("%d,%d", c, c)
 	case 2: // one byte per segment at the start
 		return "1,2,3"
+	case 3: // dense: segments of 1..3 bytes over (the first part of) the input, sometimes with an empty one
+		k := r.Range(1, 3)
+		var cs []string
+		for c := k; c < n && len(cs) < 48; c += k {
+			cs = append(cs, strconv.Itoa(c))
+			if len(cs) == 2 && r.Chance(1, 3) {
+				cs = append(cs, strconv.Itoa(c))
+			}
+		}
+		if len(cs) == 0 {
+			return "0"
+		}
+		return strings.Join(cs, ",")
 	default:
 		a, b := r.Intn(n+1), r.Intn(n+1)
 		if a > b {
@@ -262,6 +275,7 @@ func gen(g *common.Gen) {
 	}
 	genLink(g, packets)
 	genLinkCut(g, cutPackets)
+	genUDP(g, packets)
 }
 
 // ---------------------------------------------------------------- exec
@@ -289,6 +303,8 @@ func execOp(op string) string {
 			return "ok"
 		case "disp":
 			return newDisp(common.Atoi(f[2]))
+		case "udp":
+			return newUDP()
 		}
 		return "bad-op"
 	}
@@ -300,6 +316,12 @@ func execOp(op string) string {
 			v, err := m.Parse(reader(b, f[3]), f[1] == "1")
 			if err != nil || v == nil {
 				return "err"
+			}
+			if f[3] != "-" {
+				// a segmented decode that succeeds must give the value the contiguous decode gives
+				if v2, err2 := m.Parse(enc.NewBufferReader(b), f[1] == "1"); err2 == nil && v2 != nil && m.Read(v).Text() != m.Read(v2).Text() {
+					return "MISMATCH"
+				}
 			}
 			return "ok"
 		})
@@ -318,6 +340,10 @@ func execOp(op string) string {
 		return runStream(f[1])
 	case f[0] == "tok" && mode == "disp":
 		return dispToken(common.UnHex(f[1]))
+	case f[0] == "persist" && mode == "udp":
+		return udpPersist(common.Atoi(f[1]))
+	case f[0] == "dgram" && mode == "udp":
+		return udpDgram(common.UnHex(f[1]))
 	}
 	return "skip"
 }
